@@ -160,7 +160,8 @@ def leaves_changed(before, after):
 
 # ----------------------------------------------------------------------------- kinds
 SUB = 2
-def _mask(aa, m): return aa.Mask2D(mask=np.array(m, dtype=bool), pixel_scales=1.0)
+GEOM = {"ps": 1.0, "origin": (0.0, 0.0)}     # pixel scales / origin of every mask of the history being run (twins included)
+def _mask(aa, m): return aa.Mask2D(mask=np.array(m, dtype=bool), pixel_scales=GEOM["ps"], origin=GEOM["origin"])
 
 def view_grids(g):
     out = []
@@ -228,7 +229,7 @@ def make(kind, values, mask2d, store_native, normalize=False):
         m = _mask(aa, mask2d)
         return aa.VectorYX2D(values=values, grid=aa.Grid2D.from_mask(mask=m), mask=m, store_native=store_native)
     if kind == "vis": return aa.Visibilities(visibilities=values)
-    if kind == "mask": return aa.Mask2D(mask=values, pixel_scales=1.0)
+    if kind == "mask": return aa.Mask2D(mask=values, pixel_scales=GEOM["ps"], origin=GEOM["origin"])
     if kind == "mapper":
         m = _mask(aa, mask2d)
         grid = aa.Grid2D(values=values, mask=m, over_sampling=aa.OverSamplingUniform(sub_size=1))
@@ -548,6 +549,13 @@ TALLY = {}
 def tally(k, n=1): TALLY[k] = TALLY.get(k, 0) + n
 
 def run_hist(inp):
+    g = inp.get("geom") or {}
+    ps = g.get("ps", 1.0)
+    GEOM["ps"] = tuple(ps) if isinstance(ps, list) else ps
+    GEOM["origin"] = tuple(g.get("origin", (0.0, 0.0)))
+    try: return run_hist0(inp)
+    finally: GEOM["ps"], GEOM["origin"] = 1.0, (0.0, 0.0)
+def run_hist0(inp):
     r = Runner()
     aux_before = None
     out = []
@@ -1313,7 +1321,8 @@ GNODES = {
               ("ds", "grids", GC), ("ds", "convolver", GC), ("ds", "w_tilde", GC), ("ds", "signal_to_noise_map", GP),
               ("hold", "ds2", GC), ("ds2", "grids", GC), ("ds2", "convolver", GC), ("ds2", "data", GP), ("ds2", "noise_map.native", GP),
               ("ds2", None, GP), ("hold", "ds3", GC), ("ds3", "noise_map", GP), ("ds3", "data", GP), ("ds3", "grids", GC),
-              ("ds3", "signal_to_noise_map", GP), ("ds2", "signal_to_noise_map", GP)],
+              ("ds3", "signal_to_noise_map", GP), ("ds2", "signal_to_noise_map", GP),
+              ("hold", "ds4", GC), ("ds4", "grids", GC), ("ds4", "data", GP), ("ds4", "signal_to_noise_map", GP)],
     "interf": [("ds", "data", GI), ("ds", "noise_map", GI), ("ds", "uv_wavelengths", GI), ("mapper", "source_plane_data_grid", GI),
                ("ds", "grids", GC), ("mapper", "pix_sub_weights", GC), ("mapper", "mapping_matrix", GC), ("inv", "mapping_matrix", GC),
                ("inv", "operated_mapping_matrix", GC), ("inv", "data_vector", GC), ("inv", "curvature_matrix", GC),
@@ -1332,13 +1341,19 @@ class Holder:
         if name not in self.__dict__:
             if name == "ds2": self.ds2 = self.ds.apply_over_sampling(over_sampling=self.osd)
             if name == "ds3": self.ds3 = self.get("ds2").apply_noise_scaling(mask=self.mask2, noise_value=64.0)
+            if name == "ds4": self.ds4 = self.ds.apply_mask(mask=self.mask2)
         return self.__dict__[name]
 def build_chain(cfg):
     aa = import_aa()
-    ds, mappers, settings, owned = build_graph(dict(cfg, mappers=[], w_tilde=False, funcs=[]))
+    # the source dataset is itself a masked dataset made from an unmasked one (so that it can be masked again)
+    root, mappers, settings, owned = build_graph(dict(cfg, mappers=[], w_tilde=False, funcs=[], border0=True, holes=[]))
+    H, W = cfg["shape"]
+    m1 = np.ones((H, W), bool); m1[1:H - 1, 1:W - 1] = False
+    mask1 = aa.Mask2D(mask=m1, pixel_scales=1.0)
+    ds = root.apply_mask(mask=mask1)
     osd = aa.OverSamplingDataset(uniform=aa.OverSamplingUniform(sub_size=2), pixelization=aa.OverSamplingUniform(sub_size=2))
     m2 = np.array(cfg["mask2"], dtype=bool); mask2 = aa.Mask2D(mask=m2, pixel_scales=1.0)
-    return {"ds": ds, "hold": Holder(ds, osd, mask2)}, owned + [osd, m2, mask2]
+    return {"ds": ds, "hold": Holder(ds, osd, mask2)}, owned + [m1, mask1, osd, m2, mask2]
 def build_interf(cfg):
     aa = import_aa()
     H, W = cfg["shape"]
@@ -1370,7 +1385,7 @@ def gbuild(inst, cfg):
     if inst == 4: return build_interf(cfg)
     raise ValueError(inst)
 def gowner(parts, owner, bind=False):
-    if owner in ("ds2", "ds3"):
+    if owner in ("ds2", "ds3", "ds4"):
         hold = parts["hold"]
         return hold.get(owner) if bind else hold.__dict__.get(owner)
     return parts[owner]
@@ -1378,7 +1393,7 @@ def gvalue(parts, node, cfg):
     """the raw value a read of the node gives the user (exceptions propagate)"""
     owner, name, kind = node
     o = gowner(parts, owner, bind=True)
-    if owner == "hold" and name in ("ds2", "ds3"):
+    if owner == "hold" and name in ("ds2", "ds3", "ds4"):
         d = o.get(name); return [d.data, d.noise_map, d.over_sampling.uniform.sub_size]
     if name == "noise_map.native": return o.noise_map.native
     if name == "interp": return o.interpolated_array_from(values=np.array(cfg["values"], dtype=float), shape_native=(5, 4))
@@ -1799,7 +1814,9 @@ def gen_inputs(tier, rng):
     for k in range(n_hist):
         f = rng.choice(flav)
         n = rng.randint(6, 26) if f != "settings" else rng.randint(4, 9)
-        yield {"op": "hist", "tag": f, "steps": gen_history(rng, n, f, allow_d8=rng.random() < 0.35)}
+        # the geometry of the masks: anisotropic pixel scales / an origin off the centre for a third of the structure histories
+        geom = {"ps": rng.choice([1.0, 1.0, 1.0, [1.0, 2.0], 0.5]), "origin": rng.choice([[0.0, 0.0], [0.0, 0.0], [0.5, -1.0]])} if f == "struct" else {}
+        yield {"op": "hist", "tag": f, "geom": geom, "steps": gen_history(rng, n, f, allow_d8=rng.random() < 0.35)}
     # inversions: reads of curvature_matrix / curvature_reg_matrix (single regularization: the in-place += path; two: np.add),
     # with no preload / a preloaded curvature matrix / a preloaded block-diagonal matrix (w-tilde only)
     for k in range(400 if big else 40):
